@@ -32,6 +32,13 @@ UNIT_HARNESS = {
     'dsp': ('dsp_harness.rs', 'zc,zcclk,symsync,ssclk,fftfilt,fftfiltc,firf,hilbert,iir1,slicer,qdemod'),
     'zc': ('dsp_harness.rs', 'zc,zcclk'),
     'fftfilter': ('dsp_harness.rs', 'fftfilt,fftfiltc'),
+    'hilbert': ('dsp_harness.rs', 'hilbert'),
+    # byte-oriented / file / socket blocks
+    'rtlsdr': ('io_harness.rs', 'rtlsdr'),
+    'fsink': ('io_harness.rs', 'fsink'),
+    's2pdu': ('io_harness.rs', 's2pdu'),
+    'auenc': ('io_harness.rs', 'auenc'),
+    'tcp': ('io_harness.rs', 'tcp'),
 }
 
 
